@@ -138,8 +138,51 @@ def iter_acts(script):
             yield from iter_acts(a["script"])
 
 
+# ---- several runs of ONE built project in one process (props/_multirun.py) ------------------------------------------------
+# an act may carry a guard `"only_in_run": r`: it is what it says in the r-th run of the process (1-based) and the act under
+# `"else"` (default: an info log) in every other run — interpreter state, the suite / test / fixture OBJECTS are the same.
+ELSE_ACT = {"a": "log", "level": "info"}
+
+
+def effective_act(act, run_index):
+    if "only_in_run" not in act:
+        return act
+    if act["only_in_run"] == run_index:
+        return {k: v for k, v in act.items() if k not in ("only_in_run", "else")}
+    return dict(act.get("else") or ELSE_ACT)
+
+
+def effective_script(script, run_index):
+    out = []
+    for a in script:
+        a = effective_act(a, run_index)
+        if a["a"] in NESTED:
+            a = dict(a, script=effective_script(a["script"], run_index))
+        out.append(a)
+    return out
+
+
+def project_for_run(project, run_index):
+    """the project the `run_index`-th run of the process really executes (guards resolved): what that run is judged against"""
+    import copy
+    q = copy.deepcopy(project)
+    for fx in q["fixtures"]:
+        fx["setup"] = effective_script(fx["setup"], run_index)
+        fx["teardown"] = effective_script(fx["teardown"], run_index)
+    for _, s, _ in iter_suites(q):
+        if s["setup_suite"]:
+            s["setup_suite"]["script"] = effective_script(s["setup_suite"]["script"], run_index)
+        for h in HOOKS[1:]:
+            if s[h] is not None:
+                s[h] = effective_script(s[h], run_index)
+        for t in s["tests"]:
+            t["script"] = effective_script(t["script"], run_index)
+    return q
+
+
 def act_fails(a):
-    return (a["a"] == "log" and a["level"] == "error") or (a["a"] == "check" and not a["ok"]) or a["a"] == "raise"
+    return ((a["a"] == "log" and a["level"] == "error") or (a["a"] == "check" and not a["ok"]) or a["a"] == "raise"
+            or (a["a"] == "attachw" and a.get("via") == "save_file"))      # save_attachment_file on a missing source always raises
 
 
 # ------------------------------------------------------------------------------------------------
@@ -264,6 +307,10 @@ def check_valid(project):
             elif a["a"] == "attachw":
                 if depth >= 2:
                     raise Invalid("attachment blocks nested deeper than 2")
+                if a.get("via") is not None and (a["via"] != "save_file" or a["script"] != SAVE_MISSING_FILE["script"]):
+                    raise Invalid("save_attachment_file act")
+                if a.get("write") not in (None, "late"):
+                    raise Invalid("attachment block write mode")
                 walk(a["script"], in_thread, depth + 1)
             elif a["a"] == "raise":
                 if a["kind"] not in RAISE_KINDS or (a.get("sub") and a["kind"] == "exc"):
@@ -342,6 +389,11 @@ BASE_EXCEPTIONS = ["SystemExit", "GeneratorExit", "CustomBase"]
 ABORT_ARGS = ["none", "exc", "int", "two", "twostr"]
 
 
+# `lcc.save_attachment_file` / `save_image_file` given a source path that does not exist: seen by the model as what it is — a
+# `prepare_attachment` block whose body (shutil.copy) raises an Exception before anything is written
+SAVE_MISSING_FILE = {"a": "attachw", "via": "save_file", "script": [{"a": "raise", "kind": "exc"}]}
+
+
 def _failing_act(rng, kinds):
     r = rng.random()
     if not kinds or r < 0.25:
@@ -372,6 +424,19 @@ def _holders(acts, in_thread=False):
             yield from _holders(a["script"], inside)
 
 
+def _block_depth_of(acts, target, depth=0):
+    """number of `attachw` blocks around the nested script `target` (one of `_holders(acts)`, by identity); None: not found"""
+    for a in acts:
+        if a["a"] in NESTED:
+            d = depth + (1 if a["a"] == "attachw" else 0)
+            if a["script"] is target:
+                return d
+            r = _block_depth_of(a["script"], target, d)
+            if r is not None:
+                return r
+    return None
+
+
 def gen_script(rng, cfg, p_fail, p_gate, max_len=4, kinds=None):
     steps = [0]
     acts = [_benign_act(rng, cfg, 0, steps) for _ in range(rng.choice([0, 1, 1, 2, 2, 3, max_len]))]
@@ -385,9 +450,30 @@ def gen_script(rng, cfg, p_fail, p_gate, max_len=4, kinds=None):
             # the failing act sits inside an lcc.Thread (any kind: `Thread.run` logs whatever ends the thread) or
             # inside an attachment block (the exception leaves the block, then the unit)
             sc, in_thread = rng.choice(nested)
+            if (_block_depth_of(acts, sc) or 0) < 2 and _block_depth_of(acts, sc) is not None:
+                # (room for one more block around the failing act: the same two shapes as below, inside an lcc.Thread or a block)
+                r2 = rng.random()
+                if r2 < 0.12 and "exc" in kinds:
+                    f = dict(SAVE_MISSING_FILE)
+                elif r2 < 0.30:
+                    f = {"a": "attachw", "write": "late", "script": [f]}
             sc.insert(rng.randint(0, len(sc)), f)
         else:
+            r2 = rng.random()
+            if r2 < 0.10 and "exc" in kinds:
+                # `lcc.save_attachment_file(<a path that does not exist>)`: the framework's own `with prepare_attachment` block
+                # around `shutil.copy`, which raises FileNotFoundError BEFORE the attachment file exists
+                f = dict(SAVE_MISSING_FILE)
+            elif r2 < 0.24:
+                # the failing act is the content producer of a block that writes its file LAST: it never gets written
+                f = {"a": "attachw", "write": "late", "script": [f]}
             acts.insert(rng.randint(0, len(acts)), f)
+    # where a block writes its attachment file: first thing (default), or as its LAST statement ("write": "late") — a block
+    # that is left by an exception then never created the file
+    for sc, _ in [(acts, False)] + list(_holders(acts)):
+        for a in sc:
+            if a["a"] == "attachw" and "write" not in a and "via" not in a and rng.random() < 0.5:
+                a["write"] = "late"
     return acts
 
 
@@ -589,6 +675,21 @@ def gen_project(rng, profile="basic"):
             twins = [q for q in earlier if q not in t["deps"] and any(q[-1] == d[-1] for d in t["deps"])]
             if twins and rng.random() < 0.9:
                 t["deps"].insert(rng.randint(0, len(t["deps"])), list(rng.choice(twins)))
+    if rng.random() < cfg.get("p_all_disabled", 0.12):
+        # a suite WITH a setup phase whose own tests are all disabled (each of them, or the suite itself) — mostly a NESTED suite,
+        # mostly under --force-disabled (its tests then do run, and need that setup); without the option the suite has nothing to run
+        cands = [(sp, s) for sp, s, _ in iter_suites(project) if s["tests"]]
+        nested = [(sp, s) for sp, s in cands if len(sp) >= 2]
+        sp, s = rng.choice(nested if nested and rng.random() < 0.75 else cands)
+        if s["setup_suite"] is None and not s["injected"]:
+            s["setup_suite"] = {"params": [], "script": [{"a": "log", "level": "info"}]}
+        if rng.random() < 0.7:
+            for t in s["tests"]:
+                t["disabled"] = t["disabled"] or True
+        else:
+            s["disabled"] = True
+        if rng.random() < 0.65:
+            project["force_disabled"] = True
     check_valid(project)
     return project
 
@@ -638,6 +739,9 @@ def features(project):
             f.add("empty-suite" + ("+subs" if s["suites"] else ""))
         if s["disabled"]:
             f.add("disabled-suite")
+        if s["tests"] and (s["setup_suite"] is not None or s["injected"]) and (s["disabled"] or all(t["disabled"] for t in s["tests"])):
+            f.add("suite-with-setup-whose-own-tests-are-all-disabled" + ("-nested" if len(sp) >= 2 else "-top-level")
+                  + ("+force_disabled" if project["force_disabled"] else ""))
         for h in HOOKS:
             if s[h] is not None:
                 f.add("hook:" + h)
@@ -720,6 +824,12 @@ def features(project):
             for a in acts:
                 if a["a"] == "attachw":
                     f.add("attach-block")
+                    if a.get("via") == "save_file":
+                        f.add("save_attachment_file-missing-source" + ("-in-thread" if in_thread else ""))
+                    elif a.get("write") == "late":
+                        f.add("attach-block-writes-file-last")
+                        if any(act_fails(b) for b in iter_acts(a["script"])):
+                            f.add("attach-block-left-by-failure-before-file-written" + ("-in-thread" if in_thread else ""))
                     if depth:
                         f.add("attach-block+nested-block")
                     if in_thread:
@@ -943,7 +1053,7 @@ def shrink_project(p):
             sc2, j = locate(h2[k2], path)
             del sc2[j]
             cands.append(q)
-            if a["a"] == "attachw" and a["script"]:
+            if a["a"] == "attachw" and a["script"] and not a.get("via"):
                 # the block dissolved: its acts in its place
                 q = copy.deepcopy(p)
                 h2, k2 = _script_slots(q)[k]
